@@ -432,3 +432,123 @@ def render(model, limit=1800):
     except Exception as e:  # noqa: BLE001
         s = f"<unprintable: {e}>"
     return s if len(s) <= limit else s[:limit] + " ..."
+
+
+# ---------------------------------------------------------------------------------------------------
+# Scoped SSA (what ONNX requires: a name defined in a graph must differ from every name of that graph and
+# from the outer names *visible* where the subgraph sits; a later sibling definition is not visible)
+# ---------------------------------------------------------------------------------------------------
+
+def scoped_ssa_problems(model):
+    problems = []
+
+    def walk_nodes(nodes, visible, path):
+        for idx, n in enumerate(nodes):
+            for a in n.attribute:
+                gs = [a.g] if a.type == onnx.AttributeProto.GRAPH else list(a.graphs) if a.type == onnx.AttributeProto.GRAPHS else []
+                for g in gs:
+                    walk_graph(g, set(visible), f"{path}/{n.name or n.op_type}.{a.name}")
+            for o in n.output:
+                if not o:
+                    continue
+                if o in visible:
+                    problems.append(f"{path}: value '{o}' defined more than once (node #{idx} {n.op_type})")
+                visible.add(o)
+
+    def walk_graph(g, visible, path):
+        ins = [i.name for i in g.input]
+        for nme in ins:
+            if nme in visible:
+                problems.append(f"{path}: input '{nme}' redefines a visible name")
+            visible.add(nme)
+        for t in g.initializer:
+            if t.name in ins:
+                continue
+            if t.name in visible:
+                problems.append(f"{path}: initializer '{t.name}' redefines a visible name")
+            visible.add(t.name)
+        walk_nodes(g.node, visible, path)
+
+    walk_graph(model.graph, set(), "graph")
+    for f in model.functions:
+        walk_nodes(f.node, set(f.input), f"function {f.domain}::{f.name}")
+    return problems
+
+
+def wf_problems(model):
+    """vf.wf with its all-scopes-global SSA rule replaced by the scoped rule above."""
+    from vf import wf
+    out = [p for p in wf.check_model(model)
+           if "defined more than once" not in p and "redefines an existing name" not in p
+           and "redefines an outer name" not in p]
+    return out + scoped_ssa_problems(model)
+
+
+def normalise_for_execution(model):
+    """Semantics-preserving rewrite of the *proto* for runtimes that cannot resolve an overloaded model-local
+    function called from another function (ORT) or need callees listed first (onnx.reference):
+    give every overloaded function a fresh unique name and order functions callee-first."""
+    m = onnx.ModelProto()
+    m.CopyFrom(model)
+    names = {(f.domain, f.name) for f in m.functions if not getattr(f, "overload", "")}
+    ren = {}
+    for f in m.functions:
+        ov = getattr(f, "overload", "")
+        if ov:
+            new = f"{f.name}__ov{ov}"
+            while (f.domain, new) in names:
+                new += "_"
+            names.add((f.domain, new))
+            ren[(f.domain, f.name, ov)] = new
+
+    def fix_nodes(nodes):
+        for n in nodes:
+            k = (n.domain, n.op_type, getattr(n, "overload", ""))
+            if k in ren:
+                n.op_type = ren[k]
+                n.overload = ""
+            for a in n.attribute:
+                if a.type == onnx.AttributeProto.GRAPH:
+                    fix_nodes(a.g.node)
+                elif a.type == onnx.AttributeProto.GRAPHS:
+                    for g in a.graphs:
+                        fix_nodes(g.node)
+
+    fix_nodes(m.graph.node)
+    for f in m.functions:
+        fix_nodes(f.node)
+        k = (f.domain, f.name, getattr(f, "overload", ""))
+        if k in ren:
+            f.name = ren[k]
+            f.overload = ""
+    # callee-first order
+    fs = list(m.functions)
+    keys = {(f.domain, f.name): f for f in fs}
+
+    def callees(nodes, acc):
+        for n in nodes:
+            if (n.domain, n.op_type) in keys:
+                acc.add((n.domain, n.op_type))
+            for a in n.attribute:
+                if a.type == onnx.AttributeProto.GRAPH:
+                    callees(a.g.node, acc)
+                elif a.type == onnx.AttributeProto.GRAPHS:
+                    for g in a.graphs:
+                        callees(g.node, acc)
+        return acc
+
+    order, seen = [], set()
+
+    def visit(k, stack=()):
+        if k in seen or k in stack:
+            return
+        for c in sorted(callees(keys[k].node, set())):
+            visit(c, stack + (k,))
+        seen.add(k)
+        order.append(keys[k])
+
+    for f in fs:
+        visit((f.domain, f.name))
+    del m.functions[:]
+    m.functions.extend(order)
+    return m
